@@ -1,7 +1,7 @@
 --------------------------- MODULE SegHoldTrace ---------------------------
 (* Events of a real concurrent run of the storage package (harness stor -mode segstress): HoldBegin/HoldEnd are   *)
-(* logged by the clients (after the acquisition returned / before the release), SegClosed/SegDeleted by hooks     *)
-(* under the segment's mutex.  The merged log must be a behaviour of SegHold.tla.                                 *)
+(* logged by the clients (after the acquisition returned / before the release), SegClosed/SegDeleted and the        *)
+(* SnapClosedBegin/End of a file snapshot's closed path by hooks under the segment's mutex.  The merged log must be a behaviour of SegHold.tla.                                 *)
 EXTENDS SegHold, Json, Sequences, Integers
 
 Trace == ndJsonDeserialize("trace.ndjson")
@@ -14,6 +14,8 @@ TraceNext == \/ Is("HoldBegin") /\ HoldBegin(Ev.c, Ev.k, Ev.seg)
              \/ Is("HoldEnd") /\ HoldEnd(Ev.c, Ev.k, Ev.seg)
              \/ Is("SegClosed") /\ Close(Ev.seg)
              \/ Is("SegDeleted") /\ Delete(Ev.seg)
+             \/ Is("SnapClosedBegin") /\ CopyBegin(Ev.seg)
+             \/ Is("SnapClosedEnd") /\ CopyEnd(Ev.seg)
 TraceSpec == TraceInit /\ [][TraceNext]_<<hvars, l>>
 TraceAccepted == TLCGet("stats").diameter - 1 = Len(Trace)
 =============================================================================
